@@ -67,6 +67,8 @@ def run_variant(src, hier, contract, method, variant, both=False, repo_qual=None
     res = VariantResult(qual, variant.name, variant.props)
     AX.reset()
     smt.FOLDS.reset()
+    for h in views.RESET_HOOKS:
+        h()
     try:
         fn = src.func(qual)
         res.source_hash = src.source_hash(qual)
@@ -116,7 +118,7 @@ def run_variant(src, hier, contract, method, variant, both=False, repo_qual=None
                 return res
             st.pc.append(rq)
         # vacuity guard on the precondition
-        r, _ = smt.check_sat(eng.axioms() + smt.FOLDS.instances + st.pc, timeout_ms=5000)
+        r, _ = smt.check_sat(eng.axioms() + smt.FOLDS.all_instances() + st.pc, timeout_ms=5000)
         if r == 'unsat':
             res.status = 'fault'
             res.reason = 'precondition of %s is unsatisfiable (vacuous)' % eng.qual
@@ -138,7 +140,7 @@ def run_variant(src, hier, contract, method, variant, both=False, repo_qual=None
                     eng.oblige('post[%s#%d]:%s' % (o.kind, idx, name), o.st, goal, 'post')
             # cover: the path is reachable (no vacuous pass)
             res.covers += 1
-            r, _ = smt.check_sat(eng.base_axioms + AX.items + smt.FOLDS.instances + o.st.pc, timeout_ms=3000)
+            r, _ = smt.check_sat(eng.base_axioms + AX.items + smt.FOLDS.all_instances() + o.st.pc, timeout_ms=3000)
             if r != 'unsat':
                 res.cover_sat += 1
         if res.cover_sat == 0:
@@ -146,7 +148,10 @@ def run_variant(src, hier, contract, method, variant, both=False, repo_qual=None
             res.reason = 'no reachable path (vacuous)'
             return res
         # discharge
-        common = eng.base_axioms + AX.items + smt.FOLDS.instances
+        common = eng.base_axioms + AX.items + smt.FOLDS.all_instances()
+        from .engine import Oblig
+        for name, assumptions, goal in smt.FOLDS.lemma_obligations():
+            eng.obligs.append(Oblig('%s:%s' % (eng.qual, name), list(AX.items) + assumptions, goal, 'lemma'))
         for ob in eng.obligs:
             g = z3.simplify(ob.goal) if z3.is_expr(ob.goal) else ob.goal
             if z3.is_true(g):
